@@ -110,6 +110,16 @@ CORPUS = [
     (B, "C13", "region/_boundary.py", "tangents.append(dX_1 / np.linalg.norm(dX_1, axis=0))", "tangents.append(dX_1)"),
     (B, "C19", "tools/_project.py", "        values = np.average(values, axis=-2, weights=weights)\n        values = np.expand_dims(values, axis=-2)\n\n    shape = values.shape[:-2]", "        values = np.mean(values, axis=-2)\n        values = np.expand_dims(values, axis=-2)\n\n    shape = values.shape[:-2]"),
     (B, "C20", "mechanics/_job.py", "                    time += 1", "                    time += i"),
+    # ---- classes learnt in round 6 (eigen-pair order, absolute thresholds, alternative spellings of an argument, stress-based materials)
+    (B, "C12", "constitution/tensortrax/models/hyperelastic/_saint_venant_kirchhoff_orthotropic.py", 'E = einsum("a...,aij...->ij...", Ek, M)', 'E = einsum("j...,aij...->ij...", Ek, M)'),
+    (B, "C12", "constitution/tensortrax/models/hyperelastic/_saint_venant_kirchhoff_orthotropic.py", "            Ek = (λ2 ** (k / 2) - 1) / k\n", "            Ek = (λ2 ** (k / 2) - 1) / 2\n"),
+    (B, "C01,C14", "mechanics/_multipoint.py", "        self.points = self.points[\n            self.points != np.arange(self.mesh.npoints)[centerpoint]\n        ]\n", "        pass\n"),
+    (B, "C13", "region/_boundary.py", "        normals = dA / dV\n", "        normals = np.divide(dA, dV, out=np.zeros_like(dA), where=dV > 1e-9)\n"),
+    (B, "C18", "mechanics/_free_vibration.py", "        self.eigenvalues, self.eigenvectors = solver(A=K, M=M, sigma=sigma, **kwargs)", "        self.eigenvalues, self.eigenvectors = solver(A=K, M=M, sigma=sigma, **kwargs)\n        self.eigenvalues = np.abs(self.eigenvalues)"),
+    (B, "C08,C09", "dof/_tools.py", "            value = value.ravel()\n", '            value = value.ravel(order="K")\n'),
+    (B, "C03", "constitution/_mixed.py", "        self._FA4bb = ddot(F, self._A4bb, mode=(2, 4), parallel=self.parallel)", "        self._FA4bb = ddot(self._A4bb, F, mode=(4, 2), parallel=self.parallel)"),
+    (B, "C02", "assembly/expression/_bilinear.py", "                len_ubasis = values.shape[3]", "                len_ubasis = values.shape[2]"),
+    (B, "C06,C04", "element/_quad.py", "        d2hdrds[sa == 0] = ra[sa == 0] * -s", "        d2hdrds[sa == 0] = ra[sa == 0] * -r"),
     # ---- behaviour-preserving edits: the listed checks must stay silent
     (K, "C04", "element/_quad.py", "            * 0.25\n        )\n\n    def gradient", "            / 4\n        )\n\n    def gradient"),
     (K, "C17,C03", "math/_tensor.py", "    out = np.add(A, transpose(A), out=out)\n    return np.multiply(out, 0.5, out=out)", "    out = np.add(A, transpose(A), out=out)\n    return np.divide(out, 2, out=out)"),
@@ -126,6 +136,9 @@ CORPUS = [
     (K, "C15", "mechanics/_step.py", "            if stop:\n                break\n", "            if stop is True:\n                break\n"),
     (K, "C20", "mechanics/_job.py", "                    time += 1", "                    time = time + 1"),
     (K, "C06", "region/_region.py", "                region.dV = np.multiply(\n                    J, region.quadrature.weights.reshape(-1, 1), out=J\n                )", "                region.dV = J * region.quadrature.weights.reshape(-1, 1)"),
+    (K, "C13", "region/_boundary.py", "        normals = dA / dV\n", "        normals = np.divide(dA, dV, out=np.zeros_like(dA), where=dV > 0)\n"),
+    (K, "C12", "constitution/tensortrax/models/hyperelastic/_saint_venant_kirchhoff_orthotropic.py", 'E = einsum("a...,aij...->ij...", Ek, M)', 'E = einsum("b...,bij...->ij...", Ek, M)'),
+    (K, "C08,C09", "dof/_tools.py", "            value = value.ravel()\n", '            value = value.reshape(-1)\n'),
     (K, "C19,C18", "mechanics/_solidbody.py", "        return dot(P, transpose(F))\n\n    def _cauchy_stress", "        FT = transpose(F)\n        return dot(P, FT)\n\n    def _cauchy_stress"),
 ]
 
